@@ -37,8 +37,22 @@ def _val(schema, v, M):
         refs = ()
         try:
             if v.refs is not None:
-                refs = tuple(sorted(
-                    str(r.get_name(schema)) for r in v.refs.objects(schema)))
+                import re
+                words = set(re.findall(r'\w+', v.text))
+                keep = []
+                for r in v.refs.objects(schema):
+                    n = r.get_name(schema)
+                    try:
+                        local = sn.shortname_from_fullname(n).name
+                    except Exception:
+                        local = n.name
+                    # only what a name written in the text resolved to:
+                    # references pulled in indirectly (e.g. through access
+                    # policies of the types involved) depend on what else
+                    # existed when the expression was compiled
+                    if local in words:
+                        keep.append(str(n))
+                refs = tuple(sorted(keep))
         except Exception as e:
             refs = ('badrefs', repr(e)[:60])
         return ('expr', v.text, refs)
